@@ -43,6 +43,7 @@ def src_hash(extra=""):
         h.update(n.encode())
         h.update(open(os.path.join(src, n), "rb").read())
     h.update(open(os.path.join(REPO, "CMakeLists.txt"), "rb").read())
+    h.update(os.path.realpath(REPO).encode())      # the build dir holds a symlink into REPO/src: never share it between repositories
     h.update(extra.encode())
     return h.hexdigest()[:16]
 
@@ -80,7 +81,7 @@ def _prune(prefix, keep):
         for d in os.listdir(BUILD):
             if d.startswith(prefix) and d != keep:
                 p = os.path.join(BUILD, d)
-                if time.time() - os.path.getmtime(p) > 6 * 3600:
+                if time.time() - os.path.getmtime(p) > 2 * 3600:
                     shutil.rmtree(p, ignore_errors=True)
     except OSError:
         pass
